@@ -13,6 +13,9 @@ for i in range(start, start+n):
     st.update(res['stats'])
     if res.get('error'): print('ERR', i, res['error']); break
     vs = res.get('violations') or ([res['violation']] if res.get('violation') else [])
+    from simcore import findings as _f
+    _k = _f.load()
+    vs = [v for v in vs if _f.match(_k, mod.PROPERTY, mod.finding_key(res.get('case', case), v) if hasattr(mod, 'finding_key') else str(v.get('clause'))) is None]
     if vs:
         viol+=1
         print('VIOL', i, json.dumps(vs[0], default=str)[:1500])
